@@ -345,8 +345,8 @@ def _stage_pairing(ctx, n):
 
 def run(ctx):
     ctx.stage("corpus", ctx.run_corpus, OPS)
-    ctx.stage("detection", _stage_detection, ctx, ctx.budget(500, 8000))
-    ctx.stage("evaluate_clip", _stage_clips, ctx, ctx.budget(400, 8000))
+    ctx.stage("detection", _stage_detection, ctx, ctx.budget(1200, 12000))
+    ctx.stage("evaluate_clip", _stage_clips, ctx, ctx.budget(1000, 12000))
     ctx.stage("pairing", _stage_pairing, ctx, ctx.budget(200, 3000))
 
 
